@@ -3,6 +3,7 @@ package core
 import (
 	"fmt"
 	"runtime"
+	"strings"
 	"sync"
 	"testing/synctest"
 	"time"
@@ -523,7 +524,14 @@ func (s *Sim) TraceDigest() uint64 {
 	}
 	for _, st := range s.Trace() {
 		add(s.SlotName(st.Slot))
-		add(st.Label)
+		if strings.HasPrefix(st.Label, "y:") {
+			// which inserted yield a writer is at depends on Go's map
+			// iteration order inside larking (range over file descriptors):
+			// not part of what "same execution" means
+			add("y")
+		} else {
+			add(st.Label)
+		}
 		add(st.Clock.String())
 		for _, n := range st.Notes {
 			add(n)
